@@ -31,3 +31,37 @@ Proof.
   intros i l H. destruct i as [|[|[|i]]]; simpl in H; try discriminate; try (inversion H; reflexivity).
   destruct i; discriminate.
 Qed.
+
+(* ---------------- actor level (kernel model MV.Kernel.Model) ---------------- *)
+From MV Require Import Kernel.Model Kernel.Conservation.
+
+(* Conservation of user messages, for every table of scripted roles, every run of the kernel from the
+   freshly started system and every message serial: the number of sends (counted per receiver, for receivers
+   other than the two system actors) equals the number of times the message was handed to a handler plus the
+   number of dead-letter events plus the number of copies still queued or in flight in some mailbox.
+   Hence nothing is invented, nothing disappears silently (failure, restart, suspension, termination and
+   address reuse included), and a message is never both handled and dead-lettered more often than it was sent. *)
+Theorem C02_kernel_conservation : forall roles sn ls s' os,
+  krun roles kinit ls = Some (s', os) ->
+  sum_over (sentc sn) os = sum_over (handc sn) os + sum_over (deadc sn) os + pending sn s'.
+Proof. exact conservation_from_init. Qed.
+Print Assumptions C02_kernel_conservation.
+
+(* the same flow equation for one step from ANY state *)
+Theorem C02_kernel_step_conservation : forall roles sn s l s' o,
+  kstep roles s l = Some (s', o) -> pending sn s' + handc sn o + deadc sn o = pending sn s + sentc sn o.
+Proof. intros roles sn s l s' o H. pose proof (kstep_bal roles sn s l s' o H) as B. unfold bal in B. lia. Qed.
+Print Assumptions C02_kernel_step_conservation.
+
+(* sending never blocks or crashes the sender: external sends are always enabled, whatever the target *)
+Theorem C02_send_total : forall roles s t n, exists s' o, kstep roles s (LTell t n) = Some (s', o).
+Proof.
+  intros roles s t n. cbn [kstep]. destruct (next_serial s) as [s1 k]. destruct (deliver_user s1 t rNone (UProbe n k)) as [s2 o].
+  eexists. eexists. reflexivity.
+Qed.
+Print Assumptions C02_send_total.
+
+Example C02_kernel_example :
+  (* a message to an address that never existed becomes exactly one dead letter *)
+  exists s os, krun [] kinit [LTell 7%Z 1%Z; LRun 1%Z] = Some (s, os) /\ os = [[OS rGuard 7%Z 1%nat; OD rNone 7%Z 1%nat]; []].
+Proof. eexists. eexists. split; vm_compute; reflexivity. Qed.
